@@ -9,6 +9,11 @@ CHECKS = {
    text="RX: for every string of any length in each bare language of needs_quotes, every decimal int / finite repr(float) text and every quoted text, z3 shows the lexer's ordered patterns and identifier scanner read it back as the single expected token (unsat = holds for all lengths, chars <= U+2FFFF). XH: CrossHair exhausts all paths of the real needs_quotes (|v|<=3), escape->unescape through the STRING branch sliced from the real tokenize (|v|<=3), the whole tokenizer (|v|<=1) and the real Parser at the four value positions with symbolic token values. Bounded model checking of the real code; counterexamples are replayed through emit+parse before being reported.",
    note="Trusted: hand-transcribed ordered-choice skeleton of tokenize at one position (tables are read live), CPython int/float repr axioms, NFC fragment stub in whole-tokenizer lemma, CrossHair+z3 (engine patch for str ==, validated by replay).",
    ref="DESIGN.md §4 C04, §3"),
+ "C08": dict(
+   technique="CrossHair symbolic execution of the real constraint classes, chain and validator against a reference evaluator; z3 QF_BVFP lemma; z3 regex query for the DATE gate",
+   text="Every *Constraint.evaluate, ConstraintChain.parse/evaluate/detect_conflicts and Validator._validate_section/_validate_unknown_fields is executed by CrossHair on symbolic values and parameters (strings <= 2-4 chars over all characters, unbounded ints, all value kinds, chains of 1-2 members from a 15-text pool in both separators, schemas of 2 fields x presence masks x unknown fields x all policies) and compared on every path with a reference evaluator written from the property text; path trees are exhausted, each harness has a reachability twin. The DATE regex gate is decided for all strings by z3; float(int) exactness below 2^53 by a bit-vector/FP lemma.",
+   note="Trusted: reference evaluator in harness/C08.py; CPython datetime.fromisoformat (calendar arithmetic, C code) and float() parsing, which are exercised only on solver-indexed pools; NaN and symbolic float values outside the claim; error-message formatting elided by AST transformation.",
+   ref="DESIGN.md §4 C08"),
 }
 NOT_APPLICABLE = {
  "C06": "quantifies over interpreter configurations (PYTHONHASHSEED, locale, cwd, process boundaries, task interleavings); symbolic execution runs inside one configuration and cannot make these symbolic (DESIGN.md §4 C06)",
